@@ -170,8 +170,10 @@ pub fn gen_c11(tier: &str, seed: u64, out: &mut Vec<String>) {
     for _ in 0..n {
         let plen = 2 + rng.below(14) as usize;
         let prog = random_program(&mut rng, plen, true);
-        let (code, _) = assemble(&prog, CODE);
-        let regs = setregs_at(&mut rng, CODE);
+        let (code, addrs) = assemble(&prog, CODE);
+        // the entry point is usually the start of the code, sometimes a later instruction (the end of the code stays where it is)
+        let entry = if rng.chance(1, 4) { addrs[rng.below(addrs.len() as u64) as usize] } else { CODE };
+        let regs = setregs_at(&mut rng, entry);
         let limit = match rng.below(5) {
             0 => None,
             1 => Some(rng.below(4)),
@@ -180,7 +182,8 @@ pub fn gen_c11(tier: &str, seed: u64, out: &mut Vec<String>) {
         let stack = rng.chance(5, 6);
         let stop_after = rng.below(30);
         for mode in 0..2 {
-            emit_new(out, &code, CODE);
+            out.push(format!("new {} {:x} {:x}", hex(&code), CODE, entry));
+            dec_all(&code, CODE, out);
             out.push(regs.clone());
             if stack {
                 out.push("stack 200".into());
